@@ -1,0 +1,219 @@
+//go:build verif
+
+// Package verifhook provides observation and fault-injection points used by
+// the external verification harness (build tag `verif`). A point that is not
+// armed only increments its hit counter. The registry never touches program
+// state; its own state is protected by one mutex.
+package verifhook
+
+import (
+	"fmt"
+	"math/rand"
+	"os"
+	"strconv"
+	"strings"
+	"sync"
+	"syscall"
+	"time"
+)
+
+// Enabled reports whether the hooks are compiled in.
+const Enabled = true
+
+type point struct {
+	hits  int64
+	fn    func()
+	errFn func(error) error
+}
+
+var (
+	mu     sync.Mutex
+	points = map[string]*point{}
+	rng    = rand.New(rand.NewSource(1))
+)
+
+func get(name string) *point {
+	p := points[name]
+	if p == nil {
+		p = &point{}
+		points[name] = p
+	}
+	return p
+}
+
+// Point marks a named program point: counts the hit and runs the armed
+// function (outside the registry lock), if any.
+func Point(name string) {
+	mu.Lock()
+	p := get(name)
+	p.hits++
+	fn := p.fn
+	mu.Unlock()
+	if fn != nil {
+		fn()
+	}
+}
+
+// Err marks a named I/O step; an armed function may replace the error.
+func Err(name string, err error) error {
+	mu.Lock()
+	p := get(name)
+	p.hits++
+	fn := p.errFn
+	mu.Unlock()
+	if fn != nil {
+		return fn(err)
+	}
+	return err
+}
+
+// Arm installs fn at the point (nil disarms).
+func Arm(name string, fn func()) {
+	mu.Lock()
+	get(name).fn = fn
+	mu.Unlock()
+}
+
+// ArmErr installs fn at the Err point (nil disarms).
+func ArmErr(name string, fn func(error) error) {
+	mu.Lock()
+	get(name).errFn = fn
+	mu.Unlock()
+}
+
+// Hits returns how many times the point was reached.
+func Hits(name string) int64 {
+	mu.Lock()
+	defer mu.Unlock()
+	return get(name).hits
+}
+
+// Snapshot returns all hit counters.
+func Snapshot() map[string]int64 {
+	mu.Lock()
+	defer mu.Unlock()
+	m := make(map[string]int64, len(points))
+	for k, p := range points {
+		m[k] = p.hits
+	}
+	return m
+}
+
+// Reset disarms every point and clears the counters.
+func Reset() {
+	mu.Lock()
+	points = map[string]*point{}
+	mu.Unlock()
+}
+
+// Gate is a reusable two-phase barrier for directed schedules: the program
+// goroutine calls Arrive (from an armed Point) and blocks until Release.
+type Gate struct {
+	arrived chan struct{}
+	release chan struct{}
+	once    sync.Once
+	once2   sync.Once
+}
+
+func NewGate() *Gate {
+	return &Gate{arrived: make(chan struct{}), release: make(chan struct{})}
+}
+
+// Arrive signals arrival (first caller only blocks; later callers pass).
+func (g *Gate) Arrive() {
+	first := false
+	g.once.Do(func() { first = true; close(g.arrived) })
+	if first {
+		<-g.release
+	}
+}
+
+// WaitArrived blocks until some goroutine arrived or the timeout expired.
+func (g *Gate) WaitArrived(d time.Duration) bool {
+	select {
+	case <-g.arrived:
+		return true
+	case <-time.After(d):
+		return false
+	}
+}
+
+// Release lets the arrived goroutine continue.
+func (g *Gate) Release() { g.once2.Do(func() { close(g.release) }) }
+
+// Crash kills the process immediately (SIGKILL to self): no deferred
+// functions, no flushes - the closest thing to `kill -9` at a chosen point.
+func Crash() {
+	_ = syscall.Kill(os.Getpid(), syscall.SIGKILL)
+	select {}
+}
+
+// init arms points from VERIF_HOOKS="name=spec;name=spec" where spec is
+//
+//	sleep:<micros>:<prob 0..1>   sleep with the given probability
+//	crash:<nth>                  SIGKILL self at the nth hit (1-based)
+//	err:<nth>[:<count>]          Err point returns an injected error from the nth hit, count times (default 1)
+//
+// VERIF_HOOKS_SEED seeds the probability source.
+func init() {
+	spec := os.Getenv("VERIF_HOOKS")
+	if spec == "" {
+		return
+	}
+	if s, err := strconv.ParseInt(os.Getenv("VERIF_HOOKS_SEED"), 10, 64); err == nil {
+		rng = rand.New(rand.NewSource(s))
+	}
+	for _, item := range strings.Split(spec, ";") {
+		item = strings.TrimSpace(item)
+		if item == "" {
+			continue
+		}
+		kv := strings.SplitN(item, "=", 2)
+		if len(kv) != 2 {
+			continue
+		}
+		name := kv[0]
+		parts := strings.Split(kv[1], ":")
+		switch parts[0] {
+		case "sleep":
+			if len(parts) < 3 {
+				continue
+			}
+			us, _ := strconv.Atoi(parts[1])
+			prob, _ := strconv.ParseFloat(parts[2], 64)
+			Arm(name, func() {
+				mu.Lock()
+				hit := rng.Float64() < prob
+				mu.Unlock()
+				if hit {
+					time.Sleep(time.Duration(us) * time.Microsecond)
+				}
+			})
+		case "crash":
+			nth, _ := strconv.ParseInt(parts[1], 10, 64)
+			n := name
+			crashFn := func() {
+				if Hits(n) >= nth {
+					fmt.Fprintf(os.Stderr, "verifhook: crash at %s hit %d\n", n, nth)
+					Crash()
+				}
+			}
+			Arm(name, crashFn)
+			ArmErr(name, func(err error) error { crashFn(); return err })
+		case "err":
+			nth, _ := strconv.ParseInt(parts[1], 10, 64)
+			count := int64(1)
+			if len(parts) > 2 {
+				count, _ = strconv.ParseInt(parts[2], 10, 64)
+			}
+			n := name
+			ArmErr(name, func(err error) error {
+				h := Hits(n)
+				if h >= nth && h < nth+count {
+					return fmt.Errorf("verifhook: injected error at %s hit %d", n, h)
+				}
+				return err
+			})
+		}
+	}
+}
